@@ -16,6 +16,22 @@ var LibLoader = packagelib.Loader{
 	Name: "math",
 }
 
+// Each runtime has its own pseudo-random generator, kept in its registry (a
+// generator shared by all runtimes would let one runtime change the sequence
+// another one draws after seeding, and is a data race between goroutines).
+type randomSourceKey struct{}
+
+var randomSourceRegistryKey = rt.AsValue(randomSourceKey{})
+
+func randomSource(r *rt.Runtime) *rand.Rand {
+	rng, ok := r.Registry(randomSourceRegistryKey).Interface().(*rand.Rand)
+	if !ok {
+		rng = rand.New(rand.NewSource(rand.Int63()))
+		r.SetRegistry(randomSourceRegistryKey, rt.AsValue(rng))
+	}
+	return rng
+}
+
 func load(r *rt.Runtime) (rt.Value, func()) {
 	pkg := rt.NewTable()
 	r.SetEnv(pkg, "huge", rt.FloatValue(math.Inf(1)))
@@ -315,12 +331,12 @@ func rad(t *rt.Thread, c *rt.GoCont) (rt.Cont, error) {
 	return c.PushingNext1(t.Runtime, y), nil
 }
 
-// TODO: have a per runtime random generator
 func random(t *rt.Thread, c *rt.GoCont) (rt.Cont, error) {
 	var (
-		err error
-		m   int64 = 1
-		n   int64
+		err  error
+		m    int64 = 1
+		n    int64
+		rand = randomSource(t.Runtime)
 	)
 	switch c.NArgs() {
 	case 0:
@@ -389,7 +405,7 @@ func randomseed(t *rt.Thread, c *rt.GoCont) (rt.Cont, error) {
 		// In Go the seed is only 64 bits so we mangle the seeds
 		seed ^= seed2
 	}
-	rand.Seed(seed)
+	randomSource(t.Runtime).Seed(seed)
 	return c.PushingNext(t.Runtime, rt.IntValue(seed), rt.IntValue(0)), nil
 }
 
